@@ -24,7 +24,7 @@ from textx.const import (
     UNKNOWN_OBJ_ERROR,
 )
 from textx.exceptions import TextXError, TextXSemanticError, TextXSyntaxError
-from textx.lang import PRIMITIVE_PYTHON_TYPES
+from textx.lang import PRIMITIVE_PYTHON_TYPES, SEPARATOR_RULE_NAME
 from textx.scoping import Postponed, get_included_models, remove_models_from_repositories
 from textx.scoping.providers import PlainName as DefaultScopeProvider
 
@@ -784,7 +784,7 @@ def parse_tree_to_objgraph(
             elif op in ["list", "oneormore", "zeroormore"]:
                 for n in node:
                     # If the node is separator skip
-                    if n.rule_name != "sep":
+                    if n.rule_name != SEPARATOR_RULE_NAME:
                         # Convert node to proper type
                         # Rule links will be resolved later
                         value = process_node(n)
